@@ -227,10 +227,11 @@ def check(case: Dict[str, Any], obs: Dict[str, Any], ref: Optional[Dict[str, Any
                 return True
         return False
 
+    timing_ok = not out  # a wrong wake-up cycle already explains everything below; keep one fingerprint per cause
     for i, ents in enumerate(by_task):
         t = tasks[i]
         at = t.get("at", 0)
-        if at >= ncalls:
+        if at >= ncalls or not timing_ok:
             continue
         sc = obs["spawn_clock"][i]
         if not ents:
@@ -328,9 +329,12 @@ def check(case: Dict[str, Any], obs: Dict[str, Any], ref: Optional[Dict[str, Any
               f"first {log[:16]} {results[:8]}; second {again.get('log', [])[:16]} {again.get('results', [])[:8]}")
 
     # ---- reference scheduler -----------------------------------------------------------------------------
+    # (catch-all: only consulted when none of the individually grounded checks above fired)
     m = model(case, budgets)
     mseq = [(e[0], e[1], e[2]) for e in m["log"]]
-    if mseq != seq:
+    if out:
+        pass
+    elif mseq != seq:
         if sorted(mseq) == sorted(seq):
             V("fifo-order", "same-cycle order", "tasks due at one cycle are not resumed in wake-up request order",
               f"observed {seq[:24]}; reference {mseq[:24]}")
